@@ -510,6 +510,27 @@ Theorem C02_fabricated_eof_after_timeout_loses_bytes_refuted :
 Proof. exact fabricated_eof_loses_bytes. Qed.
 Print Assumptions C02_fabricated_eof_after_timeout_loses_bytes_refuted.
 
+(* ---------------- teardown order of runBridgeLifecycle ---------------- *)
+
+(* once Start has returned, ONE step of the lifecycle goroutine takes the tunnel out of s.tunnelBridges — for every history of
+   routing-store answers around it (early, late or never): forgetting does not wait for RemoveWaitingTunnel's storage Delete *)
+Theorem C02_map_forgets_before_routing_store :
+  forall h1 h2 : list td_event, Forall (fun e => e = TdStoreAnswers) h1 ->
+  td_in_map (td_run MapFirst (h1 ++ TdStep :: h2)) = false.
+Proof. exact map_first_forgets_at_once. Qed.
+Print Assumptions C02_map_forgets_before_routing_store.
+
+(* refuted: removing the routing record first — with a stalled store the ended tunnel stays in the map for ever *)
+Theorem C02_routing_first_never_forgets_refuted :
+  forall n, td_in_map (td_run RoutingFirst (repeat TdStep n)) = true.
+Proof. exact routing_first_never_forgets_refuted. Qed.
+Print Assumptions C02_routing_first_never_forgets_refuted.
+
+Theorem C02_teardown_run_exists :
+  td_run MapFirst [TdStep; TdStep; TdStoreAnswers; TdStep] = {| td_at := TdDone; td_in_map := false; td_answered := true |}.
+Proof. exact teardown_nonvacuous. Qed.
+Print Assumptions C02_teardown_run_exists.
+
 (* ---------------- (4) the server forgets the tunnel ---------------- *)
 
 (* registry_forgets: any number of startSourceBridge callers, any tunnel ids (duplicates included), every interleaving
